@@ -89,7 +89,8 @@ def imec_meta_text(kind, sites, gains=None, band="ap", nsync=1, ns=None, fs_hz="
     if geom_map:
         lines.append("~snsGeomMap=(NP1010,1,0,70)" + "".join(f"({S(s)}:{S(x)}:{S(y)}:1)" for (s, x, y) in sites))
     else:
-        lines.append("~snsShankMap=(1,2,480)" + "".join(f"({S(s)}:{S(c)}:{S(r)}:1)" for (s, c, r) in sites))
+        # a site may carry its own "used" flag as a 4th entry (default 1)
+        lines.append("~snsShankMap=(1,2,480)" + "".join(f"({S(t[0])}:{S(t[1])}:{S(t[2])}:{t[3] if len(t) > 3 else 1})" for t in sites))
     return "\n".join(lines) + "\n"
 
 
